@@ -198,7 +198,6 @@ spif_mbuff_init_from_fp(spif_mbuff_t self, FILE *fp)
     file_pos = ftell(fp);
     LOWER_BOUND(file_pos, 0);
     if (fseek(fp, 0L, SEEK_END) < 0) {
-        spif_byteptr_t p;
         size_t cnt = 0;
 
         D_OBJ(("Unable to seek to EOF -- %s.\n", strerror(errno)));
@@ -206,7 +205,8 @@ spif_mbuff_init_from_fp(spif_mbuff_t self, FILE *fp)
         self->len = 0;
         self->buff = (spif_byteptr_t) MALLOC(self->size);
 
-        for (p = self->buff; (cnt = fread(p, 1, buff_inc, fp)) > 0; p += buff_inc) {
+        /* Always read at the end of the data; REALLOC() may move the buffer. */
+        for (; (cnt = fread(self->buff + self->len, 1, buff_inc, fp)) > 0; ) {
             self->len += cnt;
             if (feof(fp)) {
                 break;
@@ -214,7 +214,7 @@ spif_mbuff_init_from_fp(spif_mbuff_t self, FILE *fp)
                 libast_print_warning("read failed:  %s.\n", strerror(errno));
                 break;
             } else {
-                self->size += buff_inc;
+                self->size = self->len + buff_inc;
                 self->buff = (spif_byteptr_t) REALLOC(self->buff, self->size);
             }
         }
@@ -246,7 +246,6 @@ spif_mbuff_init_from_fp(spif_mbuff_t self, FILE *fp)
 spif_bool_t
 spif_mbuff_init_from_fd(spif_mbuff_t self, int fd)
 {
-    spif_byteptr_t p;
     off_t file_pos;
     spif_memidx_t file_size;
 
@@ -259,20 +258,20 @@ spif_mbuff_init_from_fd(spif_mbuff_t self, int fd)
     file_size = (spif_memidx_t) lseek(fd, (off_t) 0, SEEK_END);
     lseek(fd, file_pos, SEEK_SET);
     if (file_size < 0) {
-        spif_byteptr_t p;
-        size_t cnt = 0;
+        long cnt = 0;
 
         D_OBJ(("Unable to seek to EOF -- %s.\n", strerror(errno)));
         self->size = buff_inc;
         self->len = 0;
         self->buff = (spif_byteptr_t) MALLOC(self->size);
 
-        for (p = self->buff; (cnt = read(fd, p, buff_inc)) > 0; p += buff_inc) {
-            self->len += cnt;
-            if (cnt < buff_inc) {
-                break;
-            } else {
-                self->size += buff_inc;
+        /* Always read at the end of the data (REALLOC() may move the buffer),
+           count only what was read, and stop at end of input -- a short read
+           from a pipe or socket is not the end. */
+        for (; ((cnt = read(fd, self->buff + self->len, buff_inc)) > 0) || ((cnt < 0) && (errno == EINTR)); ) {
+            if (cnt > 0) {
+                self->len += cnt;
+                self->size = self->len + buff_inc;
                 self->buff = (spif_byteptr_t) REALLOC(self->buff, self->size);
             }
         }
@@ -286,7 +285,7 @@ spif_mbuff_init_from_fd(spif_mbuff_t self, int fd)
         self->len = self->size = file_size;
         self->buff = (spif_byteptr_t) MALLOC(self->size);
 
-        if (read(fd, p, file_size) < 1) {
+        if (read(fd, self->buff, file_size) < 1) {
             FREE(self->buff);
             return FALSE;
         }
